@@ -90,3 +90,25 @@ def _path_hang(repo, ob, failure):
             if r["rc"] not in (0, 1, 2):
                 return {"input": doc, "observed": "exit %s: %s" % (r["rc"], r["err"][-300:]), "expected": "SVG or error"}
     return None
+
+
+@generator("C17.loop.")
+def _loop_limit(repo, ob, failure):
+    """a loop that needs limit+1 passes must be rejected"""
+    import re as _re
+    for limit in (1, 3, 7):
+        need = limit + 1
+        docs = {
+            "until": '<svg><config loop-limit="%d"/><var i="0"/><loop until="eq($i, %d)"><var i="{{$i + 1}}"/><rect xy="$i 0" wh="1"/></loop></svg>' % (limit, need),
+            "while": '<svg><config loop-limit="%d"/><var i="0"/><loop while="lt($i, %d)"><var i="{{$i + 1}}"/><rect xy="$i 0" wh="1"/></loop></svg>' % (limit, need),
+            "count": '<svg><config loop-limit="%d"/><loop count="%d" loop-var="i"><rect xy="$i 0" wh="1"/></loop></svg>' % (limit, need),
+            "for": '<svg><config loop-limit="%d"/><for var="i" data="%s"><rect xy="$i 0" wh="1"/></for></svg>' % (limit, ", ".join(str(k) for k in range(need))),
+        }
+        for kind, doc in docs.items():
+            r = run_svgdx(repo, doc)
+            n = len(_re.findall(r"<rect ", r["out"]))
+            if r["rc"] == 0 and n != need - 0 and n > 0 and n <= limit:
+                return {"input": doc, "observed": "exit 0 with %d of the %d requested passes rendered (truncated)" % (n, need), "expected": "LoopLimitError"}
+            if r["rc"] == 0 and n > limit:
+                return {"input": doc, "observed": "exit 0 with %d rects: %d passes ran although loop-limit=%d" % (n, n, limit), "expected": "LoopLimitError"}
+    return None
